@@ -6,7 +6,8 @@
 //!   * `upper()`  - least fixpoint of "all dependencies present": nothing outside may be integrated;
 //!   * `lower()`  - what *must* be integrated: like upper, but a unit also waits for every handed
 //!                  unit of the same client with a lower clock (yrs stashes the rest of a client's
-//!                  blocks behind the first blocked one).
+//!                  blocks behind the first blocked one), and for *every* form in which it was handed
+//!                  to be ready (live and GC forms of one unit merge in the stash into the live one).
 //! A correct replica satisfies lower ⊆ integrated ⊆ upper, with equality once the handed set is
 //! causally closed.
 use std::collections::{BTreeMap, HashMap, HashSet};
@@ -108,6 +109,16 @@ impl Model {
         }
     }
 
+    /// A unit that was handed in several forms (live, and GC / Deleted by a replica that had collected it): when the forms
+    /// meet in the stash the library keeps the most informative one, which may still be waiting although the GC form
+    /// needs nothing. "Must be integrated" therefore asks for every handed form to be ready.
+    fn ready_all(&self, u: &Uid, have: &HashSet<Uid>) -> bool {
+        match self.handed.get(u) {
+            None => false,
+            Some(alts) => alts.iter().all(|deps| deps.iter().all(|d| have.contains(d))),
+        }
+    }
+
     /// Upper bound: least fixpoint of "some handed form has all its dependencies present".
     pub fn upper(&self) -> HashSet<Uid> {
         let mut have: HashSet<Uid> = HashSet::new();
@@ -141,7 +152,7 @@ impl Model {
                 let f = frontier.get_mut(c).unwrap();
                 while *f < clocks.len() {
                     let u = (*c, clocks[*f]);
-                    if self.ready(&u, &have) {
+                    if self.ready_all(&u, &have) {
                         have.insert(u);
                         *f += 1;
                         progressed = true;
